@@ -249,7 +249,7 @@ OnSalts(ev) ==
   /\ Chk("salts.unique", TRUE, GroupedDistinct(ev.salts, ev.n))
   /\ Chk("salts.decoys.unique", ev.ndecoys > 0, GroupedDistinct(ev.decoys, ev.ndecoys))
   /\ Chk("salts.length", TRUE, ev.minlen >= 16 /\ ev.badsalt = 0)
-  /\ Chk("salts.bits", ev.n >= 1000, \A i \in DOMAIN ev.bits : LET d == 2 * ev.bits[i] - ev.n IN d * d <= 64 * ev.n)
+  /\ Chk("salts.bits", ev.n >= 1000, \A i \in DOMAIN ev.bits : LET d == 2 * ev.bits[i] - ev.n  a == IF d < 0 THEN 0 - d ELSE d IN a <= 46340 /\ a * a <= 64 * ev.n)   \* (no 32-bit overflow for grossly biased bits)
   /\ Chk("salts.digest", TRUE, ev.dgmismatch = 0)
   /\ st' = st
 OnAdvSign(ev) == st' = [st EXCEPT !.ledger = @ \cup {Signed(ev.key, ev.alg, ev.id)}]
